@@ -31,7 +31,7 @@ COMPONENTS = {
     "stub_or_harness": ["history generator", "WriterModel reference model"],
 }
 PROBES = [
-    "same_string_in_both_modes", "generated_serializer_after_chunked", "generated_plain_struct_in_both_modes", "second_writer_interleaved", "refusal_on_nonempty_buffer", "refusal_right_after_mode_toggle", "perfect_fit_padded",
+    "same_string_in_both_modes", "argument_of_a_subclass_type", "generated_serializer_after_chunked", "generated_plain_struct_in_both_modes", "second_writer_interleaved", "refusal_on_nonempty_buffer", "refusal_right_after_mode_toggle", "perfect_fit_padded",
     "y_diaeresis_sanitized", "y_diaeresis_unsanitized", "to_bytearray_is_copy", "refusal_far_beyond_limit",
     "refusal_string_one_too_long", "refusal_string_one_too_short",
 ]
@@ -82,6 +82,22 @@ def generate(streams, tier):
         plan["generated"] = {"inside": pool.get(vr), "tail": pool.get(vr), "flag": gen_int_in_range(vr, "char"),
                              "entry": rng.random() < 0.3}
     return plan
+
+
+class _Tile(int):
+    """An application's int subclass whose text form is not the integer's."""
+
+    def __str__(self):
+        return f"tile#{int(self)}"
+
+    __repr__ = __str__
+
+    def __format__(self, spec):
+        return f"tile#{int(self)}"
+
+
+class _Name(str):
+    """An application's str subclass (no behaviour of its own)."""
 
 
 def run_generated(plan, env, res, tr):
@@ -211,6 +227,13 @@ def execute(plan, env):
             relation += "P" if args[2] else "F"
         res.keys.add(f"{name}|{'ok' if expect is not None else 'refuse'}|{int(m.sanitize)}|{int(len(m.data) == 0)}|{int(has_y)}|{relation}")
         exc = None
+        if step % 9 == 4:
+            # the same values in another dress: bool / int subclass with its own text form / plain str subclass
+            dressed = [(_Tile(a) if a not in (0, 1) else bool(a)) if type(a) is int else (_Name(a) if type(a) is str else a)
+                       for a in call_args]
+            if any(type(a) is not type(b) for a, b in zip(dressed, call_args)):
+                res.count("probe.argument_of_a_subclass_type")
+            call_args = dressed
         try:
             if step % 5 == 2 and name in ("add_fixed_string", "add_fixed_encoded_string"):
                 getattr(w, name)(string=call_args[0], length=call_args[1], padded=call_args[2])
